@@ -81,7 +81,7 @@ def calendar_tie_hourly_cycle(c):
     return count
 
 
-def build_layer(p, rows):
+def build_layer(p, rows, declared="hour"):
     from sidemantic import Dimension, Metric, Model
     from sidemantic.core.pre_aggregation import PreAggregation
     layer = dbutil.fresh_layer()
@@ -89,7 +89,7 @@ def build_layer(p, rows):
     layer.conn.execute("create table ev(id bigint, ts timestamp, amt bigint)")
     layer.conn.executemany("insert into ev values (?, ?, ?)", [(i, dbutil.us_to_ts(t), a) for i, (t, a) in enumerate(rows)])
     model = Model(name="ev", table="ev", primary_key="id",
-                  dimensions=[Dimension(name="ts", type="time", granularity="hour", sql="ts")],
+                  dimensions=[Dimension(name="ts", type="time", granularity=declared, sql="ts")],
                   metrics=[Metric(name="total", agg="sum", sql="amt"), Metric(name="n", agg="count")],
                   pre_aggregations=[PreAggregation(name="r", measures=["total", "n"], time_dimension="ts", granularity=p)])
     layer.add_model(model)
@@ -111,9 +111,10 @@ def e2e_rows(rng):
     return rows
 
 
-def e2e_pair(q, p, rows):
-    """returns (routed?, routed_rows, base_rows) on the real implementation"""
-    layer = build_layer(p, rows)
+def e2e_pair(q, p, rows, declared="hour"):
+    """returns (routed?, routed_rows, base_rows) on the real implementation; `declared` = the granularity the time dimension declares (what a bare
+    reference is truncated to) -- the column itself always has sub-hour resolution"""
+    layer = build_layer(p, rows, declared)
     kw = dict(metrics=["ev.total", "ev.n"], dimensions=["ev.ts__" + q])
     sql_r = layer.compile(use_preaggregations=True, **kw)
     sql_b = layer.compile(use_preaggregations=False, **kw)
@@ -206,7 +207,10 @@ def run(c):
         rows = e2e_rows(c.rng)
         for q in NAMES:
             for p in NAMES:
-                routed, rr, rb, sql_r = e2e_pair(q, p, rows)
+              # every pair with the dimension declared at hour; the pairs the matcher must refuse (q finer than p) also with the dimension declared
+              # at the coarser granularities: what the dimension DECLARES must not make a finer query acceptable
+              for declared in (["hour"] + (["day", "week", "month"] if NAMES.index(q) < NAMES.index(p) else [["day", "month"][(NAMES.index(q) + NAMES.index(p)) % 2]])):
+                routed, rr, rb, sql_r = e2e_pair(q, p, rows, declared)
                 e2e_cases += 1
                 if routed != py_compatible(q, p):
                     c.notes.append("routing decision for (%s,%s) is %s but _is_granularity_compatible says %s" % (q, p, routed, py_compatible(q, p)))
@@ -214,8 +218,8 @@ def run(c):
                     routed_pairs.add((q, p))
                     if rr != rb:
                         diff = [x for x in rr if x not in rb][:3] + [x for x in rb if x not in rr][:3]
-                        c.violation("query at %s routed to a %s rollup returns different rows than the base table" % (q, p),
-                                    {"kind": "e2e", "q": q, "p": p, "rows": rows, "routed_sql": sql_r, "differing_rows": diff})
+                        c.violation("query at %s routed to a %s rollup returns different rows than the base table (dimension declared at %s)" % (q, p, declared),
+                                    {"kind": "e2e", "q": q, "p": p, "declared": declared, "rows": rows, "routed_sql": sql_r, "differing_rows": diff})
                 if len(c.samples) < 4 and routed and q != p:
                     c.samples.append({"query_granularity": q, "rollup_granularity": p, "routed": routed, "rows_equal": rr == rb, "n_base_rows": len(rows), "n_result_rows": len(rb)})
     c.obligation("e2e: routed == unrouted rows for every routed pair (%d pair-runs, %d routed pairs)" % (e2e_cases, len(routed_pairs)),
@@ -251,7 +255,7 @@ def replay(path):
     body = json.load(open(path))
     r = body["replay"]
     if r.get("kind") == "e2e":
-        routed, rr, rb, sql = e2e_pair(r["q"], r["p"], [tuple(x) for x in r["rows"]])
+        routed, rr, rb, sql = e2e_pair(r["q"], r["p"], [tuple(x) for x in r["rows"]], r.get("declared", "hour"))
         print("routed:", routed, "rows equal:", rr == rb)
         print(sql)
         return 1 if routed and rr != rb else 0
